@@ -162,11 +162,11 @@ class Bus:
         fr = Frame(n, t_bus, node.name, can_id, ext, data, fd)
         fr.injected = injected
         self.log.append(fr)
-        for tap in self.taps:
-            tap(fr)
         if n in self.drop or (self.drop_fn is not None and self.drop_fn(fr)):
             fr.lost = True
-        else:
+        for tap in self.taps:
+            tap(fr)
+        if not fr.lost:
             for rcv in self.nodes:
                 if rcv is node or rcv.deaf:
                     continue
